@@ -606,6 +606,16 @@ Example C13_rounded_class_witnesses :
 Proof. exact dr_class_witnesses. Qed.
 
 
+(* ---- wave 6 (fixes/C12-score-counted, C12-truncation-middle; Model/Cardinal.v score_to_simple_x, the unit the correspondence now runs):
+   with the counted aggregates - and the truncation repair as long as no truncation is configured, which is the case in every
+   configuration the theorems above speak about - the repaired converter IS score_to_simple on profiles with counts >= 0 that score
+   no candidate twice, so C13_score_* hold of it as they stand *)
+From VL Require Proofs.ScaleMJRepair_proofs.
+Theorem C13_score_to_simple_repaired : forall rp (cf : Cardinal.score_cfg) (votes : Cardinal.sprofile),
+  (Cardinal.rp_trunc rp = false \/ Qle_bool (Cardinal.sc_trunc cf) 0 = true) -> ScoreDict_proofs.profile_ok votes ->
+  Cardinal.score_to_simple_x rp cf votes = Cardinal.score_to_simple cf votes.
+Proof. intros rp cf votes Ht Hv. exact (ScaleMJRepair_proofs.score_to_simple_x_eq rp cf votes Ht Hv). Qed.
+
 Print Assumptions C13_additive.
 Print Assumptions C13_single_ballot.
 Print Assumptions C13_value.
@@ -688,3 +698,4 @@ Print Assumptions C13_rounded_code_half_exact.
 Print Assumptions C13_score_sum_unscored_value.
 Print Assumptions C13_score_sum_unscored_additive.
 Print Assumptions C13_score_sum_unscored_same_cands_needed_refuted.
+Print Assumptions C13_score_to_simple_repaired.
